@@ -41,7 +41,7 @@ Print Assumptions C14_general_inv.
 (* one event with any set l of refused remotes: invariant preserved, queues balanced, no internal error *)
 Theorem C14_general_step : forall l s e, Inv s ->
   let s' := fst (step_ev l s e) in let o := snd (step_ev l s e) in
-  Inv s' /\ (forall r, backlog_of r s ++ subm r o = left r o ++ backlog_of r s') /\ (forall x, x <> TypeError -> ~ In (Crash x) o).
+  Inv s' /\ (forall r, backlog_of r s ++ subm r o = left r o ++ backlog_of r s') /\ (forall x, ~ In (Crash x) o).
 Proof. exact general_step. Qed.
 Print Assumptions C14_general_step.
 
@@ -53,24 +53,13 @@ Theorem C14_inv_preserved : forall s e, Inv s -> Inv (fst (step s e)).
 Proof. exact (fun s e H => proj1 (step_trans s e H)). Qed.
 Print Assumptions C14_inv_preserved.
 
-(* the AssertionError of _continue_backlog / send_message and the KeyErrors of _retransmit are unreachable, also with a
-   transport that refuses datagrams from inside send() *)
-Theorem C14_no_internal_error : forall mid0 token0 rnd es e, e <> TypeError ->
+(* no exception leaves the modelled code: the AssertionError of _continue_backlog / send_message and the KeyErrors of
+   _retransmit are unreachable, also with a transport that refuses datagrams from inside send(); and a responder's response
+   never raises (before /repo fix 44c4a4c a refused non-last response raised TypeError in Pipe._add_event: finding C14-R3) *)
+Theorem C14_no_internal_error : forall mid0 token0 rnd es e,
   ~ In (Crash e) (concat (snd (rrun (init mid0 token0 rnd, []) es))).
 Proof. exact general_nocrash. Qed.
 Print Assumptions C14_no_internal_error.
-(* ... but one exception outside the message layer is reachable with a refusing transport (open finding C14-R3): a
-   responder's non-last response whose datagram is refused ends the responder's pipe inside its own event callback, and
-   Pipe._add_event (pipe.py:197) then raises TypeError out of add_response.  With an accepting transport a response
-   never raises anything. *)
-Theorem C14_no_internal_error_refuted_pipe_typeerror :
-  In (Crash TypeError) (concat (snd (rrun (init 0 0 [], []) [Ev (Serve 1 0 7 0); Refuse 0 true; Ev (Respond 10 1 false 1)]))).
-Proof. exact pipe_typeerror_refuted. Qed.
-Print Assumptions C14_no_internal_error_refuted_pipe_typeerror.
-Theorem C14_respond_never_raises_accepting : forall s j k last maxre x, Inv s ->
-  ~ In (Crash x) (snd (step s (Respond j k last maxre))).
-Proof. exact respond_never_raises_accepting. Qed.
-Print Assumptions C14_respond_never_raises_accepting.
 
 (* ---- FIFO refinement, none forgotten: for every remote, the confirmable messages submitted, in order, are
    exactly those that left the queue (first transmission, or discarded when the endpoint failed), in order,
